@@ -169,6 +169,11 @@ class WMSSource(MapLayer):
         if self.opacity is not None or other.opacity is not None:
             return False
 
+        for src in (self, other):
+            # the combined source has no res_range
+            if src.res_range and not src.res_range.contains(query.bbox, query.size, query.srs):
+                return False
+
         if self.supported_srs != other.supported_srs:
             return False
 
